@@ -598,7 +598,7 @@ impl Drv {
             let k = self.small().max(2);
             let cands = [(b.wrapping_sub(1), 1), (b, 0), (b, 1), (b.wrapping_sub(8), 8), (b.wrapping_sub(7), 8), (b.wrapping_add(1), 0),
                          (b.wrapping_sub(k), k), (b.wrapping_sub(k).wrapping_add(1), k), (b, k), (b.wrapping_sub(1), k)];
-            for _ in 0..3 {
+            for _ in 0..2 {
                 let (a, n) = cands[self.rng.gen_range(0..cands.len())];
                 if self.dead { return; }
                 self.verify(a, n);
@@ -666,25 +666,46 @@ impl Drv {
                     let d = self.data(n as usize);
                     extra.push(a);
                     self.write(a, &d);
+                    // read the touched bytes back (and their neighbours)
+                    if !self.dead && self.rng.gen_bool(0.5) { self.read(a, n); }
+                    if !self.dead && self.rng.gen_bool(0.2) { self.dump(a.saturating_sub(64), n + 128); }
                 }
                 56..=72 => {
-                    let n = match self.rng.gen_range(0..10) { 0 => 0, 1 => self.near_mem(), 2 => self.huge(), 3 => self.pow().min(1 << 16), _ => self.small() };
-                    let s = self.addr(n);
-                    let d = match self.rng.gen_range(0..12) {
+                    let n = match self.rng.gen_range(0..14) { 0 => 0, 1 => self.near_mem(), 2 => self.huge(), 3 => self.pow().min(1 << 16),
+                                                              4..=8 => [1u64, 2, 8, 8, 32, 64][self.rng.gen_range(0..6)], _ => self.small() };
+                    // a source that is (mostly) a readable placement of n bytes, then a destination related to it
+                    let s = match self.rng.gen_range(0..10) {
+                        0 | 1 if st >= n => self.rng.gen_range(0..=st - n),
+                        2 if st >= n => st - n,
+                        3 if st >= n => 0,
+                        4 | 5 if MEM - hp >= n => self.rng.gen_range(hp..=MEM - n),
+                        6 if MEM - hp >= n => hp,
+                        7 if MEM - hp >= n => MEM - n,
+                        _ => self.addr(n),
+                    };
+                    let d = match self.rng.gen_range(0..16) {
                         0 => s,
                         1 => s.wrapping_add(1),
                         2 => s.wrapping_sub(1),
                         3 => s.wrapping_add(n).wrapping_sub(1),
                         4 => s.wrapping_sub(n).wrapping_add(1),
-                        5 => s.wrapping_add(n),
-                        6 => s.wrapping_sub(n),
-                        7 => s.wrapping_add(n).wrapping_add(1),
-                        8 => s.wrapping_sub(n).wrapping_sub(1),
+                        5 | 6 => s.wrapping_add(n),
+                        7 | 8 => s.wrapping_sub(n),
+                        9 => s.wrapping_add(n).wrapping_add(1),
+                        10 => s.wrapping_sub(n).wrapping_sub(1),
+                        11 if st >= n => self.rng.gen_range(0..=st - n),
+                        12 if MEM - hp >= n => self.rng.gen_range(hp..=MEM - n),
+                        13 => { let k = self.rng.gen_range(0..=n); s.wrapping_add(k) }
+                        14 => { let k = self.rng.gen_range(0..=n); s.wrapping_sub(k) }
                         _ => self.addr(n),
                     };
                     let (d, s) = if self.rng.gen_bool(0.5) { (d, s) } else { (s, d) };
                     extra.push(d);
                     self.copy(d, s, n);
+                    if !self.dead && n > 0 {
+                        if n <= 1024 { self.read(d, n); } else { self.dump(d, n); }
+                        if self.rng.gen_bool(0.3) && !self.dead { self.dump(d.saturating_sub(64), n.saturating_add(128)); }
+                    }
                 }
                 73..=77 => {
                     if self.m.snaps.len() < 3 && (region < (8 << 20) || self.rng.gen_bool(0.3)) { self.snapshot(); }
@@ -766,7 +787,7 @@ fn record(o: &Opts) -> Res<()> {
     let mut d = Drv { m: M::new(), out, rng: o.rng(23), marks: vec![], dead: false, allow_trunc_rollback: false };
 
     if want("hist") {
-        let (segs, txs, len) = if thorough { (40, 8, 40) } else { (8, 5, 26) };
+        let (segs, txs, len) = if thorough { (48, 8, 48) } else { (10, 5, 40) };
         for sg in 0..segs {
             d.out.ev(json!({"ev": "Seg", "part": "hist", "fresh": true, "mem_size": MEM}));
             d.m = M::new();
